@@ -17,8 +17,9 @@ RULE = ("Exhaustive over small block structures: every skeleton of one or two to
         "Oracle (vf/scopemodel.py, from the statement): a declaration is rejected iff its name is visible at that "
         "point; a use is rejected iff the name is not visible there; everything else is accepted. Generated: "
         "scalar-core programs that deliberately reuse names in sibling scopes with different types / values "
-        "(gen.core_case(reuse=85)) run on the VM against the reference interpreter, whose variables are per "
-        "declaration. Non-trivial = the chosen name is declared somewhere else in the program (so visibility, not "
+        "(gen.core_case(reuse=85)) and call graphs whose functions declare locals of the same spelling "
+        "(genx.calls_case) run on the VM against the reference interpreter, whose variables are per declaration "
+        "and per activation. Non-trivial = the chosen name is declared somewhere else in the program (so visibility, not "
         "freshness, decides) / the executed program declares one name at least twice; distinct by source text.")
 ASSUMPTIONS = [
     "scopes of the model: globals; parameters; every braced block; every if, for (header + body), while, do statement; "
@@ -100,7 +101,9 @@ def skeleton(specs):
     top = namer("t")
     stmts = [M.Decl(INT, "r", lit(0)), M.Decl(INT, top, lit(1))] + build_list(specs, namer) + [M.Return(M.Var("r", INT))]
     f = M.Func("f", [(INT, "p0"), (INT, "p1")], INT, M.Block(stmts), True)
-    h = M.Func("h", [(INT, "q0")], INT, M.Block([M.Decl(INT, "hl", lit(3)), M.Return(M.Var("hl", INT))]), False)
+    # two parameters of h are written without a name: they declare nothing
+    h = M.Func("h", [(INT, "q0"), (INT, "unnamed_1"), (FLOAT, "unnamed_2")], INT,
+               M.Block([M.Decl(INT, "hl", lit(3)), M.Return(M.Var("hl", INT))]), False)
     prog = M.Program([], [(INT, "g0"), (INT, "g1")], [h, f])
     names = ["g0", "p0", "r", "q0", "hl"] + namer.names + ["fresh9"]
     return prog, names
@@ -250,7 +253,21 @@ def reuse_case(ctx, case):
     c01.check_case(ctx, case, nontrivial=(lambda tr: reused and tr.get("op", 0) >= 1))
 
 
+def across_functions_case(ctx, case):
+    """several functions declaring locals / parameters of the same spelling: every use binds to the declaration of
+    its own function's activation (executed against the reference interpreter)"""
+    per_func = [set(declared_names(f)) | {n for _, n in f.params} for f in case.prog.funcs]
+    shared = any(per_func[i] & per_func[j] for i in range(len(per_func)) for j in range(i + 1, len(per_func)))
+    if shared:
+        ctx.label("same-spelling-in-two-functions")
+    c01.check_case(ctx, case, nontrivial=(lambda tr: shared and tr.get("call", 0) >= 1))
+
+
 def run(R):
+    from .. import genx
+    R.hyp("same-names-across-functions", genx.calls_case(), across_functions_case, examples=R.pick(80, 1500), shrink="ast")
+    R.require("same-spelling-in-two-functions")
+
     def items():
         out = []
         singles = [[(c, [])] for c in CONSTRUCTS] + [[(c, [(d, [])])] for c in CONSTRUCTS[:6] for d in CONSTRUCTS]
